@@ -414,6 +414,12 @@ pub fn c20_case(src: &mut Src, obs: &mut Obs) -> CaseResult {
         small_queue: bool,
     }
     let mut live: Vec<Live> = vec![];
+    // capacity of the queue the streams of one rule share (documented: the queue of a rule is as
+    // long as its first subscriber asked for and only ever grows with later ones; the unfiltered
+    // stream has the connection's max_queued)
+    let mut cap: [usize; 4] = [maxq, 0, 0, 0];
+    // messages are not always consumed at once: within the capacity they may sit in the queue
+    let lazy = src.chance(110);
     let rest: Vec<u8> = src.rest().to_vec();
     let mut sch = Sch::new(rest);
     let mut serial = 500u32;
@@ -430,10 +436,17 @@ pub fn c20_case(src: &mut Src, obs: &mut Obs) -> CaseResult {
                 let s2 = slot.clone();
                 let r2 = *r;
                 let small = src.bool();
+                // (a later subscriber may ask for less than the queue already has: it must not shrink)
+                let asked = if small { Some(1 + src.below(4)) } else { None };
+                if *r != 0 {
+                    let want = asked.unwrap_or(64);
+                    let exists = live.iter().any(|l| l.rule == *r);
+                    cap[*r] = if exists { if asked.is_some() { cap[*r].max(want) } else { cap[*r] } } else { want };
+                }
                 let a = sched.spawn("create", async move {
                     let st = match RULES[r2] {
                         None => zbus::MessageStream::from(&c),
-                        Some(rule) => zbus::MessageStream::for_match_rule(rule, &c, if small { Some(maxq) } else { None }).await.expect("for_match_rule"),
+                        Some(rule) => zbus::MessageStream::for_match_rule(rule, &c, asked).await.expect("for_match_rule"),
                     };
                     *s2.lock().unwrap() = Some(st);
                 });
@@ -442,7 +455,7 @@ pub fn c20_case(src: &mut Src, obs: &mut Obs) -> CaseResult {
                     return Err(Failure::new(format!("creating a stream for rule {:?} does not complete ({oc:?})", RULES[*r])));
                 }
                 live.push(Live { rule: *r, expect: vec![], got: Default::default(), stream: slot, small_queue: small });
-                describe_ops.push(format!("create(rule{r})"));
+                describe_ops.push(format!("create(rule{r}, max_queued {asked:?})"));
             }
             Op::CloneS(i) => {
                 if live.is_empty() {
@@ -475,14 +488,36 @@ pub fn c20_case(src: &mut Src, obs: &mut Obs) -> CaseResult {
                 if got != l.expect {
                     return Err(Failure::new(format!("stream with rule {:?} received serials {got:?}, expected {:?} (ops so far {describe_ops:?}, max_queued {maxq})", RULES[l.rule], l.expect)));
                 }
+                let how = if src.chance(90) { "async_drop" } else { "drop" };
+                if how == "async_drop" {
+                    if let Some(st) = l.stream.lock().unwrap().take() {
+                        let a = sched.spawn("async-drop", async move {
+                            zbus::AsyncDrop::async_drop(st).await;
+                        });
+                        let _ = sched.run(&mut || sch.next(), 200_000, &mut |s| s.done(a));
+                    }
+                }
                 drop(l);
                 dropped_between = true;
                 quiesce(&mut sched, &mut sch);
-                describe_ops.push(format!("drop({i})"));
+                describe_ops.push(format!("{how}({i})"));
             }
             Op::Incoming(kind) => {
                 serial += 1;
                 let (iface, member) = [("c20.A", "Ping"), ("c20.A", "Pong"), ("c20.B", "Ping"), ("c20.C", "Other")][*kind];
+                // a queue that is full blocks the reader until its streams are polled (the property's
+                // proviso): make room first where this message would not fit
+                for r in 0..4 {
+                    if !rule_matches(r, *kind) {
+                        continue;
+                    }
+                    let unread = live.iter().filter(|l| l.rule == r).map(|l| l.expect.len() - l.got.lock().unwrap().len()).max().unwrap_or(0);
+                    if unread + 1 > cap[r].max(1) {
+                        for l in live.iter().filter(|l| l.rule == r) {
+                            drain_stream(&mut sched, &mut sch, &l.stream, &l.got, l.expect.len());
+                        }
+                    }
+                }
                 let mut m = peer.signal("/c20", iface, member, None, vec![RVal::U(serial)]);
                 m.serial = serial;
                 peer.send(&m);
@@ -494,11 +529,12 @@ pub fn c20_case(src: &mut Src, obs: &mut Obs) -> CaseResult {
                 describe_ops.push(format!("incoming({iface}.{member}#{serial})"));
                 // the message "arrives" when the connection's reader has taken it in
                 quiesce(&mut sched, &mut sch);
-                // back-pressure: a full queue blocks the reader until the streams are polled, so
-                // keep every stream polled while the message is taken in (the property's proviso)
-                for _ in 0..3 {
-                    for l in live.iter() {
-                        drain_stream(&mut sched, &mut sch, &l.stream, &l.got, l.expect.len());
+                // eager histories consume at once; lazy ones leave what fits in the queues
+                if !lazy {
+                    for _ in 0..3 {
+                        for l in live.iter() {
+                            drain_stream(&mut sched, &mut sch, &l.stream, &l.got, l.expect.len());
+                        }
                     }
                 }
             }
